@@ -458,8 +458,16 @@ func (in *Interp) visitInstr(fr *frame, instr ssa.Instruction) bool {
 				in.curFn = fr.fn
 				in.raceAccessMap(x, false)
 			}
-			k := in.mapKeyVal(fr.get(instr.Index))
-			v, ok := x.get(in, k)
+			var v Value
+			var ok bool
+			if ks, isStr := fr.get(instr.Index).(Str); isStr && !ks.IsConcrete() && !ks.Opaque && x != nil {
+				// symbolic string key: match against the stored (concrete) keys of the same length,
+				// one solver decision per candidate, instead of enumerating the key's bytes
+				v, ok = in.mapLookupSymStr(fr, x, ks)
+			} else {
+				k := in.mapKeyVal(fr.get(instr.Index))
+				v, ok = x.get(in, k)
+			}
 			if !ok {
 				v = in.zero(instr.X.Type().Underlying().(*types.Map).Elem())
 			}
@@ -507,6 +515,49 @@ func (in *Interp) visitInstr(fr *frame, instr ssa.Instruction) bool {
 }
 
 // mapKeyVal concretises symbolic scalar keys by forking.
+func (in *Interp) mapLookupSymStr(fr *frame, m *Map, ks Str) (Value, bool) {
+	tb := in.tb
+	// one query first: can the key equal any stored key at all?
+	anyc := tb.False
+	for _, e := range m.entries {
+		if es, isStr := e.K.(Str); !e.Deleted && isStr && es.IsConcrete() && es.Len() == len(ks.B) {
+			c := es.Concrete()
+			cond := tb.True
+			for i := range ks.B {
+				cond = tb.And(cond, tb.Eq(ks.B[i], tb.BVConst(8, uint64(c[i]))))
+			}
+			anyc = tb.Or(anyc, cond)
+		}
+	}
+	if anyc == tb.False || !in.decide(fr, nil, anyc) {
+		return nil, false
+	}
+	for _, e := range m.entries {
+		if e.Deleted {
+			continue
+		}
+		es, isStr := e.K.(Str)
+		if !isStr || !es.IsConcrete() {
+			panic(engineAbort{"symbolic string lookup in a map with non-string or symbolic keys"})
+		}
+		c := es.Concrete()
+		if len(c) != len(ks.B) {
+			continue
+		}
+		cond := tb.True
+		for i := range ks.B {
+			cond = tb.And(cond, tb.Eq(ks.B[i], tb.BVConst(8, uint64(c[i]))))
+		}
+		if cond == tb.False {
+			continue
+		}
+		if in.decide(fr, nil, cond) {
+			return e.V, true
+		}
+	}
+	return nil, false
+}
+
 func (in *Interp) mapKeyVal(k Value) Value {
 	if t, ok := k.(*Term); ok && !t.IsConst() {
 		u := in.chooseValue(t, "map-key")
